@@ -1764,6 +1764,7 @@ func main() {
 	r.Count("child_process_segments", segments)
 	r.Guard("write faults", func() { writeFaults(r, base) })
 	r.Guard("readers during writes", func() { readersDuringWrites(r, base) })
+	r.Guard("parallel readers", func() { parallelReaders(r, base) })
 	cleanup()
 
 	// coverage floors
